@@ -387,6 +387,17 @@ Section Workers.
   Proof. intros. apply sequential_complete. Qed.
 End Workers.
 
+(* without the hypothesis: two schedules with the same turns per operation, different requests for operation 0 *)
+Lemma workers_shared_state_refuted :
+  exists (gen : N -> N -> N) (sched sched' : list nat),
+    Permutation sched sched'
+    /\ proj_op 0 (run_shared gen sched 0) <> proj_op 0 (run_shared gen sched' 0).
+Proof.
+  exists (fun _ clock => clock), [0; 1]%nat, [1; 0]%nat. split.
+  - apply perm_swap.
+  - vm_compute. discriminate.
+Qed.
+
 Example interleave_example :
   interleave [1; 0; 1; 2; 0; 1; 0]%nat [[10; 11]; [20; 21]; []] = [(1%nat, 20); (0%nat, 10); (1%nat, 21); (0%nat, 11)]
   /\ complete [1; 0; 1; 2; 0; 1; 0]%nat [[10; 11]; [20; 21]; []] = true
